@@ -1562,7 +1562,7 @@ pub mod command_m {
                 r.wf(), // [C06/Command::all/the-result-is-a-command-of-its-own-not-one-of-the-given-ones]
                 final(w).c_spawn == commands.len(), // [C01+C06/Command::all/every-given-command-is-hosted-by-its-own-task-of-the-new-command]
                 final(w).c_ready == 1 && !final(w).c_aborted && final(w).c_events.len() == 0 && final(w).c_effects.len() == 0, // [C06/Command::all/the-new-command-starts-unaborted-with-nothing-queued]
-//@bind acc let mut (\w+) = Command::done\(\);
+//@bind acc (\w+)\.spawn\(
 //@rule X6.world 1 s/Command::done\(\)/Command::done(Tracked(w))/
 //@rule X1.for-iterator 1 s/for (\w+) in commands \{/for \1 in it: commands {/
 //@rule X5.hosting-closure 1 s/(\w+)\.spawn\(\s*(?:move )?\|(\w+)\| (\w+)\.host\(\2\.effects, \2\.events\)\.map\(\|_\w*\| \(\)\)\s*\);?/\1.spawn(Tracked(w), quiet(|\2: CommandContext<Effect, Event>| -> (res: HostFuture) { host_future(\3, \2) }));/
